@@ -667,6 +667,31 @@ class SemantivaOrchestrator(ABC):
             if k not in params_out:
                 params_out[k] = serialize_json_safe(v)
                 source_out[k] = "default"
+        # Parameters the node resolves at run time (config > context > default)
+        # that the loops above did not cover: defaulted parameters, whether they
+        # end up taken from the context or from their default.
+        try:
+            name_getter = getattr(node.processor, "get_processing_parameter_names", None)
+            param_names = list(name_getter() or []) if callable(name_getter) else []
+        except Exception:
+            param_names = []
+        defaults_meta = self._parameter_defaults(node.processor)
+        for k in param_names:
+            if k in params_out:
+                continue
+            if k in ctx_view:
+                params_out[k] = serialize_json_safe(ctx_view[k])
+                source_out[k] = "context"
+                continue
+            info = defaults_meta.get(k)
+            default: Any = _NO_DEFAULT
+            if isinstance(info, ParameterInfo):
+                default = info.default
+            elif isinstance(info, dict):
+                default = info.get("default", _NO_DEFAULT)
+            if default is not _NO_DEFAULT:
+                params_out[k] = serialize_json_safe(default)
+                source_out[k] = "default"
         return params_out, source_out
 
     def _extra_pre_checks(
